@@ -3,7 +3,8 @@ import MmtkModel.Props.C32
 /-!
 # C31 (unit part) — Address-to-space resolution is total and exact
 
-`sft_total`, `sft_exact`: the SFT space map. `descriptor_total` is **false** for `Map64`
+`sft_total`, `sft_exact`: the SFT space map. `descriptor_total` was **false** for the pinned `Map64`
+(repaired by the `fix:` commit 8903e0b; the last section is the lookup of this tree)
 (mmtk-core defect `map64:descriptor-index-oob`, DESIGN §7-F8): witnesses by `decide`, the true part
 as `descriptor_total_partial` (with the exact failure set), and the repaired lookup proved total
 and conservative in the last section.
